@@ -80,6 +80,7 @@ type Exec struct {
 	lemma         *gcl.Lemma
 	trustedUsed   map[string]bool
 	heapHoldsRefs map[string]bool
+	fnSelf        *smt.T
 	SplitFrames   bool // debugging: one frame obligation per heap instead of one per path
 }
 
